@@ -79,7 +79,7 @@ struct World {
     sim: Arc<Mutex<Sim>>,
 }
 
-async fn world(n: u32, pre: u64, cfg: RaftNodeConfig) -> World {
+async fn world(n: u32, pre: u64, trunc: u64, cfg: RaftNodeConfig) -> World {
     let storage = Arc::new(MockStorageEngine::new());
     let (log, iorx) = BufferedRaftLog::<QT>::new(
         1,
@@ -90,10 +90,28 @@ async fn world(n: u32, pre: u64, cfg: RaftNodeConfig) -> World {
         },
         storage,
     );
-    let log = Arc::new(log);
-    let entries: Vec<Entry> = (1..=pre).map(|i| Entry { index: i, term: 1, payload: Some(EntryPayload::noop()) }).collect();
-    if !entries.is_empty() {
+    // The IO thread is started only for the F7 regression shape (the conflict path waits for the IO task);
+    // otherwise entries live in the in-memory log only (that is what the leader reads).
+    let (log, iorx) = if trunc > 0 && pre >= 2 {
+        let (_tx, dummy) = mpsc::unbounded_channel::<d_engine_core::IOTask>();
+        (log.start(iorx, None), dummy)
+    } else {
+        (Arc::new(log), iorx)
+    };
+    if trunc > 0 && pre >= 2 {
+        // F7 regression shape: the node was a follower holding pre+trunc entries (term 0) and a conflicting
+        // AppendEntries truncated the suffix from index `pre` (real `filter_out_conflicts_and_append`); the log it
+        // then leads with is 1..=pre. Before fix 1bbcfa6 `next_id` stayed at pre+trunc+1.
+        let entries: Vec<Entry> = (1..=pre + trunc).map(|i| Entry { index: i, term: 0, payload: Some(EntryPayload::noop()) }).collect();
         log.append_entries(entries).await.expect("append");
+        log.filter_out_conflicts_and_append(pre - 1, 0, vec![Entry { index: pre, term: 1, payload: Some(EntryPayload::noop()) }])
+            .await
+            .expect("conflict append");
+    } else {
+        let entries: Vec<Entry> = (1..=pre).map(|i| Entry { index: i, term: 1, payload: Some(EntryPayload::noop()) }).collect();
+        if !entries.is_empty() {
+            log.append_entries(entries).await.expect("append");
+        }
     }
     let sim = Arc::new(Mutex::new(Sim { applied: pre, kv: 0 }));
     let mut sm = MockStateMachine::new();
@@ -156,7 +174,7 @@ fn class_status(st: &Status) -> String {
         tonic::Code::ResourceExhausted => "exhausted".into(),
         tonic::Code::InvalidArgument => "empty".into(),
         tonic::Code::FailedPrecondition if st.message() == "Not leader" => "notleader".into(),
-        tonic::Code::FailedPrecondition if st.message().contains("already exists") => "joinexists".into(),
+        tonic::Code::FailedPrecondition if st.message().contains("already been added") => "joinexists".into(),
         tonic::Code::DeadlineExceeded => "deadline".into(),
         tonic::Code::Internal if st.message().starts_with("Node fatal error") => "fatal".into(),
         tonic::Code::Unavailable if st.message() == "Leader stepped down" => "stepdown".into(),
@@ -223,7 +241,7 @@ fn decode(e: &Entry) -> Dec {
     let num = |b: &[u8]| std::str::from_utf8(b).ok().and_then(|s| s.parse::<u64>().ok());
     let idof = |k: &[u8]| std::str::from_utf8(k).ok().and_then(|s| s.strip_prefix("k#")).and_then(|s| s.parse::<u64>().ok());
     match e.payload.as_ref().and_then(|p| p.payload.as_ref()) {
-        Some(Payload::Noop(_)) => if e.term == 1 { Dec::Old } else { Dec::Noop },
+        Some(Payload::Noop(_)) => if e.term < 2 { Dec::Old } else { Dec::Noop },
         Some(Payload::Config(_)) => Dec::Conf,
         Some(Payload::Command(b)) => match WriteCommand::decode(&b[..]).ok().and_then(|w| w.operation) {
             Some(Operation::Insert(i)) => match (idof(&i.key), num(&i.value)) { (Some(id), Some(v)) => Dec::Put(id, v), _ => Dec::Bad },
@@ -275,7 +293,7 @@ async fn run_case(f: &std::collections::HashMap<String, String>, ops: &str) -> S
     cfg.raft.metrics.enable_batch = false;
     verif_clock::set(Some(0));
     let mut clock: u64 = 0;
-    let mut w = world(n, pre, cfg).await;
+    let mut w = world(n, pre, g("trunc"), cfg).await;
     let ctx = &w.ctx;
     let (etx, _erx) = mpsc::channel::<InboundEvent>(16);
 
